@@ -199,6 +199,9 @@ def run(ctx):
     # a refused sibling (executed, then rejected: real dpos.Status.Update(best) must clear its residue) before a valid block
     rf = D.refused_family(ctx.rng, "refused")
     cases += rf if not quick else ctx.rng.sample(rf, 16)
+    # non-decimal numerals as parameter vote candidates, cast by a 2/3 majority
+    nm = D.numeral_family(ctx.rng, "numeral")
+    cases += nm if not quick else ctx.rng.sample(nm, 6)
     # chains crossing hardfork boundaries (fork heights configured low)
     cases += D.fork_crossing_family(ctx.rng, "forks")
     # the block-generation deadline at every position of the candidate list
